@@ -9,7 +9,13 @@ with a van 't Hoff affinity through isosteric_enthalpy / enthalpy_sorption_whitt
 import math
 from fractions import Fraction
 
-from pgv.charlib import qlist, quiet_logging, tv_run
+from pgv.charlib import q, qlist, quiet_logging, tv_run
+
+
+def parse_list(tok):
+    inner = tok[1:-1]
+    return inner.split(";") if inner else []
+
 from pgv.core import import_pygaps
 from pgv.models import logu, relerr
 
@@ -124,6 +130,7 @@ def run(ck):
                          {"dH": dH, "T": Ts, "params": {"K0": K0, "n_m_mmol": nm, "t": gen_params.t, "r2": gen_params.r2, "f2": gen_params.f2}, "units": [pu, lu], "loadings": loads, "got": got, "rel_error": e})
 
     # ------------------------------------------------------------------ 3. Whittaker closed form
+    wl_lines, wl_plan = [], []
     from pygaps.core.adsorbate import Adsorbate
     for i in range(N):
         ads_name, T = rng.choice([("N2", 77.355), ("N2", 100.0), ("Ar", 87.3), ("CO2", 273.15), ("CO2", 298.15), ("CH4", 150.0)])
@@ -170,6 +177,23 @@ def run(ck):
             sb = (np.float64(th) / (1 - np.float64(th))) ** ((np.float64(t) - 1) / np.float64(t))
             cases.append(("whit_second_bracket", {"theta_t": th, "t": t}, sb))
         got_l, got_h = [float(x) for x in res["loading"]], [float(x) for x in res["enthalpy_sorption"]]
+        # correspondence of the loop (Model/Enthalpy.lean): the pressures the code itself reads (`pressure_at(n, 'Pa')`), zero loadings and
+        # loadings beyond the capacity (NaN pressure) included; the model predicts which loadings are reported, exactly
+        loop_ns = list(loads)
+        if rng.random() < 0.5:
+            loop_ns = loop_ns + [0.0, nm * rng.uniform(1.001, 1.5)]
+            rng.shuffle(loop_ns)
+        try:
+            res2 = res if loop_ns == list(loads) else enthalpy_sorption_whittaker(m_iso, model=name, loading=np.array(loop_ns))
+            pres = []
+            for n in loop_ns:
+                pv = float(m_iso.pressure_at(n, pressure_unit="Pa")) if n != 0 else 0.0
+                pres.append(None if math.isnan(pv) else pv)
+            if all(pv is None or abs(pv - min(p_c, p_sat)) > 1e-9 * min(p_c, p_sat) for pv in pres):
+                wl_lines.append(f"whit {q(p_c)} {q(p_t)} {q(p_sat)} {qlist(loop_ns)} [" + ";".join("~" if pv is None else q(pv) for pv in pres) + "]")
+                wl_plan.append(([float(x) for x in res2["loading"]], {"adsorbate": ads_name, "T": T, "params": params, "loadings": loop_ns, "pressures": pres}))
+        except Exception as e:  # noqa
+            ck.fail_case({**sig, "clause": "Whittaker raises", "error": type(e).__name__}, {"adsorbate": ads_name, "T": T, "params": params, "loadings": loop_ns, "error": repr(e)[:300]})
         # loadings whose pressure is within 1e-9 of a bound may legitimately fall on either side
         edge = [n for n in loads if abs(p_of(n) - min(p_c, p_sat)) <= 1e-9 * min(p_c, p_sat)]
         if [x for x in got_l if x not in edge] != [x for x in keep if x not in edge]:
@@ -210,6 +234,8 @@ def run(ck):
                 continue
             if got != want:
                 ck.fail_case({"method": "initial_enthalpy_point", "clause": "not the first measured enthalpy of the branch", "branch": br}, {"n_ads": n_a, "n_des": n_d, "got": got, "expected": want})
+            wl_lines.append(f"init {br} [" + ";".join(["0"] * n_a + ["1"] * n_d) + f"] {qlist(ent)}")
+            wl_plan.append((got, {"branch": br, "n_ads": n_a, "n_des": n_d}))
 
     # ------------------------------------------------------------------ replies
     tv_run(ck, cases, tol=1e-11)
@@ -231,6 +257,25 @@ def run(ck):
                 n_dis += 1
                 if n_dis <= 3:
                     ck.broken.append({"step": "correspondence Model/Linear.lean (ols vs isosteric_enthalpy_raw)", "what": {"request": line[:300], "model": rep[:200], "implementation": sl}})
+    # Model/Enthalpy.lean: the Whittaker loop and the initial point, exact
+    try:
+        wrep = ck.drive("Enthalpy", wl_lines) if wl_lines else []
+    except Exception as e:
+        wrep = None
+        ck.broken.append({"step": "driver Enthalpy", "what": str(e)[:600]})
+    if wrep is not None:
+        for (impl, info), rep, line in zip(wl_plan, wrep, wl_lines):
+            t = rep.split()
+            kind = line.split()[0]
+            ck.count(("corr", kind), nontrivial=False, bucket="correspondence:" + ("whittaker loop" if kind == "whit" else "initial point"))
+            if kind == "whit":
+                ok = t[0] == "ok" and [float(Fraction(x)) for x in parse_list(t[1])] == impl
+            else:
+                ok = t[0] == "ok" and float(Fraction(t[1])) == impl
+            if not ok:
+                n_dis += 1
+                if n_dis <= 3:
+                    ck.broken.append({"step": f"correspondence Model/Enthalpy.lean ({kind})", "what": {"request": line[:400], "model": rep[:300], "implementation": impl, "case": info}})
     ck.cov["correspondence_disagreements"] = n_dis
     ck.cov["worst_relative_errors"] = {k: float(f"{v:.3g}") for k, v in sorted(worst.items())}
     ck.cov["rule"] = ("dH 5-60 kJ/mol, 2-5 distinct temperatures in 200-400 K in random order, Langmuir / Toth / dual-site Langmuir generators with van 't Hoff affinity as model isotherms (exact) and as 400-point "
